@@ -831,6 +831,13 @@ type shadowOuter struct {
 	V uint16 `hash:"param:v"`
 	X string
 }
+// a shadowed parameter next to optional fields: the required-fragment count must count the shadowed name once
+type shadowOptOuter struct {
+	shadowInner
+	V uint16 `hash:"param:v"`
+	R uint32 `hash:"param:r,omitempty"`
+	X string
+}
 type mirrorMD5 struct {
 	HashPrefix wlPrefix
 	Salt       []byte
@@ -910,7 +917,7 @@ type privateAndDash struct {
 }
 
 var handShapes = []interface{}{outerEmbed{}, shadowOuter{}, mirrorMD5{}, mirrorSHA{}, mirrorSun{}, mirrorNT{}, mirrorBcrypt{},
-	mirrorArgon2{}, mirrorDES{}, mirrorDESExt{}, mirrorSHA1{}, noPrefixS{}, paramA{}, twoStrings{}, dupParam{}, privateAndDash{}}
+	mirrorArgon2{}, mirrorDES{}, mirrorDESExt{}, mirrorSHA1{}, noPrefixS{}, paramA{}, twoStrings{}, dupParam{}, privateAndDash{}, shadowOptOuter{}}
 
 func suiteCodec(c *Ctx) {
 	if h, ok := c.Replay["type"]; ok {
